@@ -129,6 +129,10 @@ fn prefix_case(src: &mut Src, ctx: &mut Ctx) -> Result<(), String> {
 const REPLACEMENTS: &[&str] = &["END", ";", "42", "-0.5", "0", "0.0", "-0", ".0", "-1", "\"abc", "MACRO", "PIN", "LAYER", "RECT", "PORT", "VERSION", "UNITS", "PROPERTY", "BEGINEXT", "ENDEXT", "ITERATE", "DO", "SITE", "VIA", "LIBRARY", "#",
     // numbers at the edges of the 96-bit decimal type behind every LEF number
     "79228162514264337593543950335", "-79228162514264337593543950335", "99999999999999999999999999999", "7922816251426433759354395033.5", "0.0000000000000000000000000001", "123456789012345678901234567890123456789",
+    // more decimals than the type has digits, with few significant ones
+    "0.00000000000000000000000000000", "0.00000000000000000000000000001", "-1.000000000000000000000000000000", "0.0000000000000000000000000000000000000000001",
+    // string literals with a backslash in front of a quote, an ASCII letter, a multi-byte character, the end of the text
+    "\"D:\\设计\"", "\"\\😀\" \"b\"", "\"x\\→", "\"a\\\"b\"", "\"C:\\проекты\\ячейки\"", "\"\\",
     // words of few characters but many bytes (keyword lookup works on the text of the token)
     "中文字符中文字符中文字符中文", "оченьдлинноеслововкириллице", "ＭＡＣＲＯ",
     // statements the reader documents as unsupported
@@ -229,7 +233,7 @@ fn flood_case(src: &mut Src, ctx: &mut Ctx) -> Result<(), String> {
 }
 
 // ---- (iii) non-ASCII / odd characters inserted anywhere ------------------------------------------------------
-const ODD: &[&str] = &["é", "ß", "Ω", "中", "😀", "\u{a0}", "\u{85}", "\u{2003}", "\x0b", "\x0c", "\r", "\u{feff}", "\"", "#", ";", "\n", "\t", "\0", "\u{301}"];
+const ODD: &[&str] = &["é", "ß", "Ω", "中", "😀", "\u{a0}", "\u{85}", "\u{2003}", "\x0b", "\x0c", "\r", "\u{feff}", "\"", "#", ";", "\n", "\t", "\0", "\u{301}", "\\", "\\é", "\\😀", "\\\""];
 fn insertion_case(src: &mut Src, ctx: &mut Ctx) -> Result<(), String> {
     let b = &bases()[src.index(bases().len())];
     let mut txt = b.text.clone();
